@@ -624,6 +624,9 @@ pub fn run(id: &str, tier: &str, seed: u64) -> i32 {
         eprintln!("infrastructure notes:\n{}", ev.infra.iter().take(5).cloned().collect::<Vec<_>>().join("\n"));
         exit = 2;
     }
+    if id == "C02" && which == Which::C02 && !crate::checks::probe_known("C02") && exit == 0 {
+        exit = 2;
+    }
     ev.write(t0.elapsed().as_secs_f64());
     println!("{} {}: programs={} runs={} nontrivial={} violations={} reference_side_failures={} wall={:.1}s", id, tier, ev.programs, ev.evaluations, ev.nontrivial, ev.violations, ref_fail_n, t0.elapsed().as_secs_f64());
     exit
